@@ -13,7 +13,7 @@ import GoluaVerif.Proofs.Ctx
 import GoluaVerif.Proofs.Propagate
 namespace GoluaVerif.Props.C07
 open GoluaVerif.Generated.Resources GoluaVerif.Model.Ctx GoluaVerif.Spec.Quota GoluaVerif.Proofs.Ctx
-open GoluaVerif.Model.CallCtx GoluaVerif.Proofs.CallCtx
+open GoluaVerif.Model.CallCtx GoluaVerif.Proofs.CallCtx GoluaVerif.Proofs.Propagate
 
 /-! ## PushContext -/
 
@@ -267,10 +267,73 @@ theorem call_keeps_stack_aligned (s : St) (it : Item) (hw : it.wf = true) (hi : 
   exact ⟨g.parents, g.inv, g.live, g.killed⟩
 
 /-- a whole program under `rt.New` + one CallContext leaves the runtime's root context as it found it -/
-theorem call_from_root_returns_to_root (d : CtxDef) (body : List Item) (hw : wfBody body = true) :
-    (exec St.init (.call d body)).1.st.parents = [] ∧ Inv (exec St.init (.call d body)).1.st :=
-  let g := call_keeps_stack_aligned St.init (.call d body) (by unfold Item.wf; exact hw) inv_init rfl
-  ⟨by have h := g.1; generalize (exec St.init (.call d body)).1.st.parents = l at h; cases h; rfl, g.2.1⟩
+theorem call_from_root_returns_to_root (d : CtxDef) (body hs : List Item) (hw : wfBody body = true)
+    (hwh : wfBody hs = true) :
+    (exec St.init (.call d body hs)).1.st.parents = [] ∧ Inv (exec St.init (.call d body hs)).1.st :=
+  let g := call_keeps_stack_aligned St.init (.call d body hs) (by unfold Item.wf; rw [hw, hwh]; rfl) inv_init rfl
+  ⟨by have h := g.1; generalize (exec St.init (.call d body hs)).1.st.parents = l at h; cases h; rfl, g.2.1⟩
+
+/-! ## pending to-be-closed handlers run in the context being left, before its status is set -/
+
+/-- **order**: `CallContext` runs the pending close handlers (`cleanupCloseStack(c, h, f())`) in the
+pushed context after its body has ended normally or with an error — never after a termination or a
+foreign panic — and only then sets the status and pops: the call is "pop after (body; handlers)". -/
+theorem close_handlers_then_status (a : Acc) (d : CtxDef) (body hs : List Item) :
+    runCall a d body hs =
+      (match runBody { a with st := push a.st d } body with
+       | (a1, .done) => runHandlers a1 .done hs
+       | (a1, .error) => runHandlers a1 .error hs
+       | (a1, e) => (a1, e)) ∧
+    (∀ a1 res, runBody { a with st := push a.st d } body = (a1, .killed res) → runCall a d body hs = (a1, .killed res)) := by
+  refine ⟨rfl, fun a1 res h => ?_⟩
+  unfold runCall; rw [h]
+
+/-- **handlers run under the limits of the context being left**: the body and its handlers run in
+the same frame — the invariant holds throughout, the frame's hard limits and inherited flags are
+those set at push, it is live when each handler starts, and if a handler is terminated the frame
+is `killed` — so the context handed back reports `killed`, not `error`, whenever a handler ran
+into the limit (`status_truthful` covers the status, this theorem the frame). -/
+theorem close_handlers_run_under_limits (a : Acc) (d : CtxDef) (body hs : List Item) (hwb : wfBody body = true)
+    (hwh : wfBody hs = true) (hi : Inv a.st) (hl : a.st.cur.live = true) :
+    Inv (runCall a d body hs).1.st ∧
+    (runCall a d body hs).1.st.cur.hard = (a.st.cur.child d).hard ∧
+    ((∀ res, (runCall a d body hs).2 ≠ .killed res) → (runCall a d body hs).1.st.cur.live = true) ∧
+    (∀ res, (runCall a d body hs).2 = .killed res → (runCall a d body hs).1.st.cur.status = StatusKilled) := by
+  have g := good_call a d body hs hwb hwh hi hl
+  exact ⟨g.inv, g.hard, g.live, g.killed⟩
+
+/-- **a handler that needs more than the context has left ends it `killed`**: after a body that ran
+to its end or raised an error in a CPU-metered context, if the pending handlers (requests and
+limit-less brackets) ask for at least what is left, the call's body+handlers exit is a CPU
+termination with the frame `killed` and the refused request as the last operation — the error the
+body had raised does not survive as status `error`. -/
+theorem close_handler_past_limit_kills (a1 : Acc) (e : Exit) (hs : List Item) (he : e = .done ∨ e = .error)
+    (hw : bodyPcallCpu hs = true) (hi : Inv a1.st) (hm : Metered a1.st.cur)
+    (hf : bodyFits a1.st.cur.hard.Cpu.toNat hs)
+    (hge : a1.st.cur.hard.Cpu.toNat ≤ a1.st.cur.used.Cpu.toNat + bodyCost hs) :
+    (runHandlers a1 e hs).2 = .killed .cpu ∧ (runHandlers a1 e hs).1.st.cur.status = StatusKilled := by
+  -- handlers made of requests and brackets never raise, so they run like a body
+  have key : ∀ (hs : List Item) (a : Acc) (e : Exit), bodyPcallCpu hs = true → (e = .done ∨ e = .error) →
+      ((runBody a hs).2 = .done → runHandlers a e hs = ((runBody a hs).1, e)) ∧
+      (∀ r, (runBody a hs).2 = .killed r → runHandlers a e hs = runBody a hs) := by
+    intro hs
+    induction hs with
+    | nil => intro a e _ _; exact ⟨fun _ => rfl, fun r h => by simp [runBody] at h⟩
+    | cons h rest ih =>
+      intro a e hw he
+      have hw' : h.pcallCpu = true ∧ bodyPcallCpu rest = true := by
+        have := hw; unfold bodyPcallCpu at this; simpa using this
+      unfold runHandlers runBody
+      cases hr : runItem a h with
+      | mk a2 e2 =>
+        cases e2 with
+        | done => simp only; exact ih a2 e hw'.2 he
+        | error => simp only; exact ⟨(fun c => nomatch c), (fun r c => nomatch c)⟩
+        | killed r => simp only; exact ⟨(fun c => nomatch c), (fun _ _ => trivial)⟩
+        | crashed => simp only; exact ⟨(fun c => nomatch c), (fun r c => nomatch c)⟩
+  have ex := (exact_body a1 hs hw hi hm hf).die hge
+  rw [(key hs a1 e hw he).2 .cpu ex.1]
+  exact ⟨ex.1, ex.2.1⟩
 
 /-! ## non-vacuity -/
 
@@ -299,8 +362,8 @@ example : (run St.init [.push exDef, .reqCpu 49#64]).cur.due = false ∧
 
 def exTree : Item :=
   .call exDef [.op (.reqCpu 30#64),
-    .call ⟨⟨50#64, 0#64, 0#64⟩, Res.zero, 0#16⟩ [.op (.reqCpu 20#64), .call CtxDef.none [.op (.reqCpu 29#64), .op (.reqCpu 1#64)], .err],
-    .call CtxDef.none [.op (.reqCpu 5#64), .err], .call CtxDef.none [.op (.reqCpu 1#64)]]
+    .call ⟨⟨50#64, 0#64, 0#64⟩, Res.zero, 0#16⟩ [.op (.reqCpu 20#64), .call CtxDef.none [.op (.reqCpu 29#64), .op (.reqCpu 1#64)] [], .err] [],
+    .call CtxDef.none [.op (.reqCpu 5#64), .err] [], .call CtxDef.none [.op (.reqCpu 1#64)] []] []
 
 /-- one tree exhibiting all three statuses: the pcall grandchild is refused a tick by the budget it
 inherited from the child (limit 50), which is therefore killed too and dies alone (its own limit is
@@ -310,5 +373,15 @@ example : exTree.wf = true ∧
     (exec St.init exTree).1.results.reverse.map (fun r => (r.depth, r.status, r.exit, r.used.Cpu)) =
       [(2, StatusKilled, .killed .cpu, 49#64), (2, StatusError, .error, 5#64), (2, StatusDone, .done, 1#64),
        (1, StatusDone, .done, 85#64)] ∧ (exec St.init exTree).1.st = St.init := by decide +kernel
+
+/-- body raises an error with a pending handler that asks for more than is left: the context is
+handed back `killed` (not `error`), having used 9 < 10; with a cheap handler it is `error` -/
+example :
+    (exec St.init (.call ⟨⟨10#64, 0#64, 0#64⟩, Res.zero, 0#16⟩ [.op (.reqCpu 4#64), .err] [.op (.reqCpu 5#64), .op (.reqCpu 7#64)])).1.results.map
+      (fun r => (r.status, r.used.Cpu)) = [(StatusKilled, 9#64)] ∧
+    (exec St.init (.call ⟨⟨10#64, 0#64, 0#64⟩, Res.zero, 0#16⟩ [.op (.reqCpu 4#64), .err] [.op (.reqCpu 5#64)])).1.results.map
+      (fun r => (r.status, r.used.Cpu)) = [(StatusError, 9#64)] ∧
+    (exec St.init (.call ⟨⟨10#64, 0#64, 0#64⟩, Res.zero, 0#16⟩ [.op (.reqCpu 4#64)] [.err, .op (.reqCpu 5#64)])).1.results.map
+      (fun r => (r.status, r.used.Cpu)) = [(StatusError, 9#64)] := by decide +kernel
 
 end GoluaVerif.Props.C07
